@@ -115,7 +115,32 @@ def handleWebp (kv : KV) : String :=
       else s!"OK {id} tags=webp,{if res == "ok" then "accepted" else "rejected"},{if big then "large-declared" else "small-declared"},{if s.len > 1048576 then "huge-chunk" else "small-file"}"
   | _, _, _, _ => "ERR ? missing-field"
 
+/-- one stream shape at growing sizes: `runs = WxH:bytes:result:peak;...`.  The peak heap may not follow the input
+    size: every run must stay within 16 KiB of the smallest run's peak (and below the constant). -/
+def handleScale (kv : KV) : String :=
+  let id := kv.getD "id" "?"
+  let runs := ((kv.getD "runs" "").splitOn ";").filterMap fun t =>
+    match t.splitOn ":" with
+    | [d, b, r, p] => match b.toNat?, p.toNat? with
+      | some b, some p => some (d, b, r, p)
+      | _, _ => none
+    | _ => none
+  if runs.isEmpty then s!"ERR {id} no-runs"
+  else
+    let peaks := runs.map fun (_, _, _, p) => p
+    let lo := peaks.foldl min (peaks.headD 0)
+    let hi := peaks.foldl max 0
+    let bad := runs.filter fun (_, _, r, _) => r != "ok"
+    if !bad.isEmpty then s!"DIFF {id} scale-stream-not-accepted runs={kv.getD "runs" ""}"
+    else if hi > lo + 16384 then
+      s!"SPEC {id} which=peak-heap-grows-with-the-validated-size sig=C10:webp-peak-heap-scales lo={lo} hi={hi} runs={kv.getD "runs" ""}"
+    else if hi > webpHeapConst then s!"SPEC {id} which=peak-heap-exceeds-constant sig=C10:webp-peak-heap hi={hi}"
+    else s!"OK {id} tags=webp,accepted,large-declared,scale"
+
 def handle (kv : KV) : String :=
-  if kv.getD "san" "mp4" == "webp" then handleWebp kv else handleMp4 kv
+  match kv.getD "san" "mp4" with
+  | "webp" => handleWebp kv
+  | "webpscale" => handleScale kv
+  | _ => handleMp4 kv
 
 end Driver.C10
